@@ -2,7 +2,14 @@ from collections.abc import Sequence
 from pathlib import Path
 from typing import Any
 
-from pydantic import BaseModel, ConfigDict, Field, field_validator, model_validator
+from pydantic import (
+    BaseModel,
+    ConfigDict,
+    Field,
+    ValidationInfo,
+    field_validator,
+    model_validator,
+)
 
 from rtflite.attributes import TableAttributes, TextAttributes
 from rtflite.core.constants import RTFConstants
@@ -318,10 +325,10 @@ class RTFPage(BaseModel):
     )
 
     @field_validator("border_first", "border_last")
-    def validate_border(cls, v):
+    def validate_border(cls, v, info: ValidationInfo):
         if v not in BORDER_CODES:
             raise ValueError(
-                f"{cls.__field_name__.capitalize()} with invalid border style: {v}"
+                f"{str(info.field_name).capitalize()} with invalid border style: {v}"
             )
         return v
 
@@ -335,10 +342,10 @@ class RTFPage(BaseModel):
         return v
 
     @field_validator("width", "height", "nrow", "col_width")
-    def validate_width_height(cls, v):
+    def validate_width_height(cls, v, info: ValidationInfo):
         if v is not None and v <= 0:
             raise ValueError(
-                f"{cls.__field_name__.capitalize()} must be greater than 0."
+                f"{str(info.field_name).capitalize()} must be greater than 0."
             )
         return v
 
